@@ -106,6 +106,7 @@ fn worker(args: &[String]) -> i32 {
     let start = Instant::now();
     let stop = outdir.join("stop");
     let mut known_hits: BTreeSet<String> = BTreeSet::new();
+    let mut unconfirmed = 0u32;
     agg.rep.first_seed = u64::MAX;
     'jobs: for job in &jobs {
         let total = (if thorough { job.thorough } else { job.quick }) * scale_pct / 100;
@@ -203,6 +204,27 @@ fn worker(args: &[String]) -> i32 {
                     };
                     if std::fs::write(&fp, serde_json::to_string_pretty(&rf_full).unwrap()).is_ok() {
                         full_path = fp.display().to_string();
+                    }
+                }
+                // does it fail in a fresh process too? If not, the failure needs state that the code under
+                // test carried over from earlier runs of this worker process: keep looking for one that
+                // stands on its own (a few times), and tell the driver
+                let reproduces = |file: &str| -> bool {
+                    let exe = match std::env::current_exe() {
+                        Ok(e) => e,
+                        Err(_) => return true,
+                    };
+                    (0..2).any(|_| matches!(std::process::Command::new(&exe).args(["replay", file]).stdout(std::process::Stdio::null()).stderr(std::process::Stdio::null()).status(), Ok(s) if s.code() == Some(1)))
+                };
+                if !reproduces(&path.display().to_string()) && (full_path.is_empty() || !reproduces(&full_path)) {
+                    unconfirmed += 1;
+                    agg.rep.harness_errors.push(format!(
+                        "a violation of {prop} [{}] found at seed {seed} in job {} does not reproduce from its replay file in a fresh process (the code under test keeps state across runs in one process): {}",
+                        mv.oracle, job.name, mv.msg.chars().take(200).collect::<String>()
+                    ));
+                    if unconfirmed < 6 {
+                        idx += nshards;
+                        continue;
                     }
                 }
                 agg.rep.violations.push(FoundViolation {
